@@ -1796,11 +1796,11 @@ class Cat(Funsor, metaclass=CatMeta):
             pos = 0
             for part in self.parts:
                 psize = part.inputs[self.part_name].size
-                if step > 1:
-                    pstart = ((pos - start) // step) * step - (pos - start)
-                    pstart = pstart + step if pstart < 0 else pstart
+                if pos >= start:
+                    # offset of the first selected position at or after pos
+                    pstart = (start - pos) % step
                 else:
-                    pstart = max(start - pos, 0)
+                    pstart = start - pos
                 pstop = min(pos + psize, stop) - pos
 
                 if not (pstart >= pstop or pos >= stop or pos + psize <= start):
